@@ -58,6 +58,17 @@ def execute(c):
             put("acc_dask_" + dims[0], lambda: da.chunk({"y": 1, "x": 1}).hdc.algo.autocorr().compute())
             if dims[0] == "time" and len(xi) > 4:
                 put("acc_dask_timechunked", lambda: da.chunk({"time": 2}).hdc.algo.autocorr().compute())
+
+            def joint(da=da):
+                # the same dask array under ANOTHER nodata attribute (one of its valid observations) evaluated in the same graph:
+                # each lazy result belongs to its own attribute
+                import dask
+
+                dl = da.chunk({"y": 1, "x": 1})
+                other = next((int(v) for v in vals if v is not None), 1)
+                a, _b = dask.compute(dl.hdc.algo.autocorr(), dl.assign_attrs(nodata=other).hdc.algo.autocorr(), scheduler="synchronous")
+                return a
+            put("acc_dask_joint_" + dims[0], joint)
         # cubes in which a spatial axis is as long as the time axis (ny == nt, nx == nt): the layout is a matter of
         # dimension NAMES; the series sits at one pixel among rolled copies of itself
         n = len(xi)
